@@ -87,6 +87,19 @@ namespace
       : success
    {};
 
+   // matches (without consuming) exactly where g_left bytes are left: until< left_is > walks there byte by byte
+   inline std::size_t g_left = 0;
+   struct left_is
+   {
+      using rule_t = left_is;
+      using subs_t = empty_list;
+      template< typename ParseInput >
+      [[nodiscard]] static bool match( ParseInput& in )
+      {
+         return in.size( g_left + 1 ) == g_left;
+      }
+   };
+
    struct seen
    {
       std::optional< position > pos;
@@ -179,6 +192,23 @@ namespace
          }
          else {
             add( res, "parse", " NOACTION" );
+         }
+      }
+      {
+         // fourth way: the one-argument until< Cond > skips the K bytes (its own bump per skipped byte)
+         input_t in( a.data, a.data + a.size, "c19", c.b0, c.l0, c.c0 );
+         seen s;
+         g_left = a.size - K;
+         try {
+            (void)parse< seq< until< left_is >, mark, must< failure > >, act >( in, s );
+         }
+         catch( const parse_error& ) {
+         }
+         if( s.pos ) {
+            add( res, "until", helpers( in, a, *s.pos ) );
+         }
+         else {
+            add( res, "until", " NOACTION" );
          }
       }
       for( const auto& e : res ) {
